@@ -163,7 +163,7 @@ def guards(outs, o):
 
 class Engine:
     def __init__(self, facts, opaque=(), inline_filter=None, max_paths=4096, max_depth=8, models=None,
-                 log_enter=False, pure=(), fold_only=None, inline_loops=(), readonly=(), iter_adapters=True, unroll=False, concrete=False):
+                 log_enter=False, pure=(), fold_only=None, inline_loops=(), readonly=(), iter_adapters=True, unroll=False, concrete=False, call_alias=None):
         self.facts = facts
         self.iter_adapters = iter_adapters     # interpret closure-taking iterator adapters as one arbitrary loop iteration
         self.unroll = unroll                   # walk loops over literal arrays element by element instead of abstracting them
@@ -171,6 +171,7 @@ class Engine:
         self.conts = {}
         self.cont_id = itertools.count(1)
         self.opaque = set(opaque)
+        self.call_alias = dict(call_alias or {})     # opaque callee -> canonical name it is recorded under (receiver `&mut x.field` becomes `&mut x`)
         self.inline_filter = inline_filter
         self.max_paths = max_paths
         self.max_depth = max_depth
@@ -1156,6 +1157,10 @@ class Engine:
         return [(st, callee, nfid, 0)]
 
     def _opaque_call(self, st, fn, fid, t, name, args):
+        if name in self.call_alias and args and args[0][0] == 'ref' and args[0][1][0] == 'fld':
+            # a lower-level primitive reached inside an inlined wrapper: recorded as the API call it stands for
+            name = self.call_alias[name]
+            args = [('ref', args[0][1][1])] + list(args[1:])
         # shared references to frame locals are snapshotted so that call terms are self-contained
         snapped = []
         for a, aty in zip(args, t.get('arg_tys', [''] * len(args))):
